@@ -8,4 +8,5 @@ Next == k < N /\ k' = k + 1
 Chk == LET r == Recs[k] IN
        /\ Complete(r) \/ PrintT(<<"MISMATCH", k, -1>>)
        /\ \A i \in 1..Len(r.faults) : FaultOK(r.base, r.faults[i]) \/ PrintT(<<"MISMATCH", k, r.faults[i].k>>)
+       /\ \A i \in 1..Len(r.inner) : InnerOK(r.base, r.faults[r.inner[i].k + 1], r.inner[i]) \/ PrintT(<<"MISMATCH", k, r.inner[i].k>>)
 =============================================================================
